@@ -38,7 +38,7 @@ ATTR_VALUES = [True, False, "x", "", "y"]
 XOR_CODE = bytes([0x5A, 0x13, 0xC7, 0x2E, 0x91, 0x7F, 0x08])
 # "scfm/" / "scnm/" / "scfm//" / "scnm//": StoreCache(MemoryStore(), "/cache" or "//cache") - a cache path with leading slashes
 # is the same cache as without them; the model receives the path as given and normalises it like the constructor does
-CONFIGS = ["no", "mem", "file", "xor", "fernet", "sql", "sqlstr", "scfm", "scnm", "scff", "scnf", "mem+file", "no+mem", "ifhas", "ifhasnot", "attreq", "proxy", "scfm/", "scnm/", "scfm//", "scnm//"]
+CONFIGS = ["no", "mem", "file", "xor", "fernet", "sql", "sqlstr", "scfm", "scnm", "scff", "scnf", "mem+file", "no+mem", "ifhas", "ifhasnot", "attreq", "proxy", "scfm/", "scnm/", "scfm//", "scnm//", "ifhas+mem"]
 SLASHED = {"scfm/": "/cache", "scnm/": "/cache", "scfm//": "//cache", "scnm//": "//cache"}
 EXACT_UNSTABLE = {"mem", "file", "xor", "fernet", "sql", "sqlstr", "mem+file", "no+mem", "proxy", "no"}
 
@@ -171,6 +171,8 @@ class Built:
             c = C.MemoryCache() + C.FileCache(d())
         elif cfg == "no+mem":
             c = C.NoCache() + C.MemoryCache()
+        elif cfg == "ifhas+mem":
+            c = C.MemoryCache().if_contains("abc") + C.MemoryCache()      # a conditional member in front of an unconditional one
         elif cfg == "ifhas":
             c = C.MemoryCache().if_contains("abc")
         elif cfg == "ifhasnot":
@@ -194,7 +196,7 @@ class Built:
 
 
 def model_cfg(cfg):
-    return {"xor": "xor:" + XOR_CODE.hex(), "ifhas": "ifhas:" + hx("abc"), "ifhasnot": "ifhasnot:" + hx("abc"),
+    return {"xor": "xor:" + XOR_CODE.hex(), "ifhas": "ifhas:" + hx("abc"), "ifhas+mem": "ifhas+mem:" + hx("abc"), "ifhasnot": "ifhasnot:" + hx("abc"),
             "attreq": "attreq:%s:%s" % (hx("abc"), hx("s:x")),
             **{c: "%s:%s" % (c[:4], hx(p)) for c, p in SLASHED.items()}}.get(cfg, cfg)
 
